@@ -157,6 +157,52 @@ def run_case(rec: Recorder, case: dict[str, typing.Any]) -> None:
         rec.sample({"case": case, "log": [(e["origin"], e["method"], e["target"], [k for k, _ in e["headers"]]) for e in log]})
 
 
+class SchemelessServer:
+    def __init__(self, location: str):
+        self.location = location
+
+    def on_request(self, net: typing.Any, sc: typing.Any, req: typing.Any) -> None:
+        from vf import wire
+
+        if req.target.startswith(b"/start"):
+            sc.write(wire.build_response(302, "Found", headers=[("Location", self.location)], body=b""))
+        else:
+            sc.write(wire.build_response(200, body=b"ok"))
+
+
+def judge_schemeless(rec: Recorder, start: str, location: str, other_host: str) -> None:
+    """A URL without a scheme is still accepted (deprecated) and fetched as http: a redirect that leaves its origin must
+    strip the sensitive headers all the same."""
+    import warnings
+
+    import urllib3
+
+    from vf import netsim
+
+    case = {"schemeless_start": start, "location": location}
+    rec.mon("schemeless_start")
+    with netsim.Net(SchemelessServer(location)) as net, warnings.catch_warnings():
+        warnings.simplefilter("ignore")
+        pm = urllib3.PoolManager()
+        try:
+            pm.request("GET", start, headers={"Authorization": "secret", "Cookie": "a=b", "X-Keep": "k"}, retries=urllib3.Retry(3))
+        except urllib3.exceptions.HTTPError:
+            rec.count("schemeless_request_failed")
+        except Exception as e:  # noqa: BLE001
+            rec.count("schemeless_rejected_" + type(e).__name__)
+        for st in net.states:
+            if st.dial["host"].lower().rstrip(".") != other_host:
+                continue
+            for r in st.server.requests:
+                names = {k.decode("latin-1").lower() for k, _ in r.headers}
+                leaked = sorted(names & {"authorization", "cookie"})
+                if leaked:
+                    rec.fail(case, "sensitive-header-forwarded", {"client": "manager", "header": leaked[0], "to": other_host, "schemeless": True, "form": "scheme-relative"}, f"request to {other_host} after a redirect from {start!r} carries {leaked}")
+                    pm.clear()
+                    return
+        pm.clear()
+
+
 def random_case(rng: typing.Any) -> dict[str, typing.Any]:
     client = rng.choice(["manager", "manager", "proxy", "pool"])
     nh = rng.choice([1, 2, 2, 3, 4])
@@ -238,6 +284,13 @@ def run_shard(ctx: Ctx, rec: Recorder) -> None:
             rec.case(["pool", to, form, code])
             run_case(rec, case)
     # (ii) random
+    if ctx.shard == 0:
+        for start in ("a.test/start", "a.test:80/start", "A.test/start?x=1"):
+            for loc in ("//b.test/landing", "//b.test:8080/landing", "//B.TEST/landing", "http://b.test/landing", "//a.test:8080/other-port"):
+                other = "b.test" if "b.test" in loc.lower() else "a.test"
+                rec.case(["schemeless", start, loc])
+                if other == "b.test":
+                    judge_schemeless(rec, start, loc, "b.test")
     # sensitive-only per-request headers over a manager that has sensitive default headers: after a cross-origin
     # strip nothing is left, and "nothing" must not turn into the manager's defaults
     for client in ("manager", "proxy"):
